@@ -119,7 +119,7 @@ func CompareSuccess(sc *Scenario, o *ParseObs, checkRest bool) (string, string) 
 			continue
 		}
 		want, ok := e.FinalValue(opt)
-		if !ok {
+		if !ok || e.ValueUnspec[opt] {
 			continue
 		}
 		got := o.Snap["o"+itoa(opt.ID)]
